@@ -1,0 +1,13 @@
+//go:build verif
+
+package logic
+
+import "net/http"
+
+// Verification hook for property C14 (access control). Only built with -tags verif.
+
+// VerifServeHls is the handler lalserver registers for the hls url pattern (ServerManager.serveHls):
+// simple auth for playlists, the ip black-list, then hls.ServerHandler.
+func (sm *ServerManager) VerifServeHls(writer http.ResponseWriter, req *http.Request) {
+	sm.serveHls(writer, req)
+}
